@@ -496,6 +496,45 @@ func TestVerifC06Deviations(t *testing.T) {
 					r.Outcome(a.class + ":holder-rejected")
 				}
 			}
+			// the commitment message object presented to the issuer twice: accepted, then its proof altered in
+			// place and presented again
+			if !cfg.keyshare {
+				run := c06Start(cfg, "twice1")
+				obj := &IssueCommitmentMessage{}
+				vfJSONCopy(run.commit, obj)
+				if ism, _ := run.issue(obj, run.nonce1, true); ism != nil {
+					if pu, ok := obj.Proofs[0].(*ProofU); ok {
+						for _, what := range []string{"s_response+1", "v_prime_response+1", "U+1 (in the proof)"} {
+							var undo func()
+							switch what {
+							case "s_response+1":
+								old := pu.SResponse
+								pu.SResponse = new(big.Int).Add(old, vfInt(1))
+								undo = func() { pu.SResponse = old }
+							case "v_prime_response+1":
+								old := pu.VPrimeResponse
+								pu.VPrimeResponse = new(big.Int).Add(old, vfInt(1))
+								undo = func() { pu.VPrimeResponse = old }
+							default:
+								old := pu.U
+								pu.U = new(big.Int).Add(old, vfInt(1))
+								undo = func() { pu.U = old }
+							}
+							r.Eval()
+							r.Nontrivial(cfg.String() + "|accepted commitment object altered in place: " + what)
+							ism2, why := run.issue(obj, run.nonce1, true)
+							if ism2 != nil {
+								r.Violate("C06|issuer-signed-despite-deviation|reuse:"+what, fmt.Sprintf("%s: the commitment message object was accepted once, its proof altered in place (%s) and accepted again", cfg, what),
+									map[string]any{"config": cfg.String(), "alteration": "accepted commitment object altered in place (" + what + ")"})
+							} else {
+								r.Outcome("reuse-msg1:" + what + ":issuer-rejected")
+								_ = why
+							}
+							undo()
+						}
+					}
+				}
+			}
 			// the same message object presented twice: accepted, then altered in place (witness u, signature
 			// A, v) and presented again to the same builder - whatever the first run left in the object or
 			// in the builder must not make the second run succeed
